@@ -96,6 +96,8 @@ GHOSTS = {}         # name -> sort string ("int", "seq")
 VIRTUAL = {}        # virtual class -> (bases, members)
 SHAPES = {}         # class -> {field: type string}
 TRUSTED_NOTES = {}  # fid/abstract id -> human text for evidence
+GLOBALS = {}        # module-level name -> python constant | ("sentinel", n)
+MACROS = {}         # name -> (param names, contract-language text): expanded in place in clauses
 
 
 def contract(fid, **kw):
@@ -129,3 +131,11 @@ def shape(cls, **fields):
 
 def trusted_note(key, text):
     TRUSTED_NOTES[key] = text
+
+
+def global_const(name, value):
+    GLOBALS[name] = value
+
+
+def macro(name, params, text):
+    MACROS[name] = (list(params), text)
